@@ -10,9 +10,9 @@ import re
 from .seeds import is_import_line
 
 WRAPS = ["none", "function", "method", "if", "try", "with", "nested", "async", "loop"]
-LAYOUTS = ["lf", "crlf", "nofinalnl", "tabs", "comments", "blanklines"]
+LAYOUTS = ["lf", "crlf", "nofinalnl", "tabs", "comments", "blanklines", "bom"]
 MULTS = [1, 2]
-IMPORTS = ["asis", "local"]
+IMPORTS = ["asis", "local", "decoy"]
 
 
 def _split(text: str):
@@ -73,6 +73,8 @@ def layout(text: str, kind: str) -> str:
         return re.sub(r"^((?:    )+)", lambda m: "\t" * (len(m.group(1)) // 4), text, flags=re.M)
     if kind == "comments":
         return "# leading comment\n" + text.rstrip("\n") + "\n# trailing comment\n"
+    if kind == "bom":
+        return "\ufeff" + text
     if kind == "blanklines":
         return "\n\n" + text.rstrip("\n") + "\n\n\n"
     raise ValueError(kind)
@@ -95,10 +97,20 @@ def local_imports(text: str) -> str:
     return "\n".join(rest + ["", "def local_scope():"] + _indent(imps) + _indent(body) + ["", "local_scope()"]) + "\n"
 
 
-def apply(text: str, vec: dict) -> str:
+def decoy_imports(text: str, added: list[str]) -> str:
+    """An unrelated function that imports, locally, the modules the fix is going to need at module level."""
+    if not added:
+        return text
+    body = "\n".join("    " + ln.strip() for ln in added)
+    return text.rstrip("\n") + "\n\n\ndef decoy_scope():\n" + body + "\n    return None\n"
+
+
+def apply(text: str, vec: dict, added_imports: list[str] | None = None) -> str:
     t = text
     if vec.get("imp") == "local":
         t = local_imports(t)
+    if vec.get("imp") == "decoy":
+        t = decoy_imports(t, added_imports or [])
     t = multiply(t, vec.get("mult", 1))
     t = wrap(t, vec.get("wrap", "none"))
     t = layout(t, vec.get("layout", "lf"))
